@@ -152,7 +152,9 @@ int disasm_6502(
     strcpy(instruction, "???");
     snprintf(temp, sizeof(temp), " 0x%02x", opcode);
     strcat(instruction, temp);
-    return 0;
+
+    // An unknown opcode still takes up one byte.
+    return 1;
   }
 
   // set this to the number of bytes the operation took up
